@@ -22,6 +22,14 @@
 //	    {"idx","typ","addr","keeplocal","faults","input","sents":[every request],"panic"};
 //	    the fate of each candidate line of `input` is looked up in TLC's table.
 //
+//	sdpdrv observed <lifecycle.ndjson> <Observed.tla>
+//	    write the addresses of all candidates in the captured answers as the
+//	    TLA+ module Observed (TLC then classifies them: Gen_observed.cfg).
+//	sdpdrv judgelife <table.ndjson> <lifecycle.ndjson> <out.ndjson>
+//	    life-cycle executor captures {"ev":"answer","plan","life","keep","expect","context","sent"}:
+//	    an answer posted in a lifetime that demands "stripped" must contain no
+//	    candidate line whose fate in TLC's table is "strip".
+//
 // The driver only concretises, executes and compares text; which candidate
 // must be stripped, kept or is a don't-care comes from TLC.
 package main
@@ -46,6 +54,7 @@ import (
 
 type addr struct {
 	Fam string `json:"fam"`
+	G   []int  `json:"g,omitempty"` // fam "v6g": all eight groups (addresses observed at run time)
 	O   []int  `json:"o,omitempty"`
 	Hi  int    `json:"hi,omitempty"`
 	Mid int    `json:"mid,omitempty"`
@@ -85,6 +94,9 @@ func (a *addr) class() string {
 	case "m4":
 		return fmt.Sprintf("m4:%d.%d.%d.%d", a.O[0], a.O[1], a.O[2], a.O[3])
 	}
+	if a.Fam == "v6g" {
+		return "v6:" + a.ip().String()
+	}
 	return fmt.Sprintf("v6:%x:%x..%x", a.Hi, a.Mid, a.Lo)
 }
 
@@ -102,6 +114,9 @@ func (a *addr) ip() net.IP {
 	}
 	ip := make(net.IP, 16)
 	g := []int{a.Hi, a.Mid, a.Mid, a.Mid, a.Mid, a.Mid, a.Mid, a.Lo}
+	if a.Fam == "v6g" {
+		g = a.G
+	}
 	for i, v := range g {
 		ip[2*i], ip[2*i+1] = byte(v>>8), byte(v)
 	}
@@ -252,7 +267,33 @@ func candValue(c *cand, uniq int, rng *vh.Rng) string {
 	}
 	sp := c.Addr.spellings()
 	a := sp[rng.Intn(len(sp))]
+	// spellings that pion's UnmarshalCandidate accepts as a host candidate (spec: LenientStyles)
+	prio := strconv.Itoa(2130706431 - uniq)
+	std := []string{f, "1", "udp", prio, a, port, "typ", "host"}
 	switch {
+	case c.Typ == "host" && c.Style == "no-foundation":
+		return " " + strings.Join(std[1:], " ")
+	case c.Typ == "host" && c.Style == "keyword-type":
+		std[6] = "type"
+		return strings.Join(std, " ")
+	case c.Typ == "host" && c.Style == "keyword-upper":
+		std[6] = "TYP"
+		return strings.Join(std, " ")
+	case c.Typ == "host" && c.Style == "tabs":
+		return strings.Join(std, "\t")
+	case c.Typ == "host" && c.Style == "multispace":
+		return strings.Join(std, []string{"  ", "   ", " \t "}[rng.Intn(3)])
+	case c.Typ == "host" && c.Style == "trailing-blank":
+		return strings.Join(std, " ") + []string{" ", "   ", "\t"}[rng.Intn(3)]
+	case c.Typ == "host" && c.Style == "host-raddr":
+		return strings.Join(std, " ") + " raddr 192.0.2.9 rport 4000"
+	case c.Typ == "host" && c.Style == "port-zero":
+		std[1], std[5] = "2", "0"
+		return strings.Join(std, " ")
+	case c.Typ == "host" && c.Style == "tcp-passive":
+		return f + " 1 tcp 1671430143 " + a + " " + port + " typ host tcptype passive"
+	case c.Typ == "host" && c.Style == "tcp-unknown":
+		return f + " 1 tcp 1671430143 " + a + " " + port + " typ host tcptype whatever"
 	case c.Typ == "host" && c.Tr == "tcp":
 		return f + " 1 tcp 1671430143 " + a + " 9 typ host tcptype active"
 	case c.Typ == "host" && c.Style == "chrome":
@@ -897,6 +938,129 @@ func modeJudgePC(rows []json.RawMessage, caps []json.RawMessage, w *vh.Writer) {
 		"payloads": payloads, "calls_with_retry": retried}})
 }
 
+type lifeEvent struct {
+	Ev          string `json:"ev"`
+	Plan        int    `json:"plan"`
+	Life        int    `json:"life"`
+	Keep        bool   `json:"keep"`
+	URL         string `json:"url"`
+	Expect      string `json:"expect"`
+	Context     string `json:"context"`
+	Sent        string `json:"sent"`
+	Undecodable bool   `json:"undecodable"`
+}
+
+type seenCand struct {
+	typ, tr, text string
+	ip            net.IP
+	line          string
+}
+
+func candidatesOf(sdp string) []seenCand {
+	var out []seenCand
+	for _, l := range strings.Split(strings.ReplaceAll(sdp, "\r\n", "\n"), "\n") {
+		if !strings.HasPrefix(l, "a=candidate:") {
+			continue
+		}
+		c, err := ice.UnmarshalCandidate(strings.TrimPrefix(l, "a=candidate:"))
+		if err != nil {
+			continue
+		}
+		ip := net.ParseIP(c.Address())
+		if ip == nil {
+			continue
+		}
+		tr := "udp"
+		if strings.HasPrefix(c.NetworkType().String(), "tcp") {
+			tr = "tcp"
+		}
+		out = append(out, seenCand{c.Type().String(), tr, c.Address(), ip, l})
+	}
+	return out
+}
+
+func modeObserved(events []json.RawMessage, path string) {
+	seen := map[string]bool{}
+	var recs []string
+	for i, raw := range events {
+		var e lifeEvent
+		if err := json.Unmarshal(raw, &e); err != nil {
+			vh.Fatal("bad event %d: %v", i, err)
+		}
+		if e.Ev != "answer" {
+			continue
+		}
+		for _, c := range candidatesOf(e.Sent) {
+			if seen[c.ip.String()] {
+				continue
+			}
+			seen[c.ip.String()] = true
+			if ip4 := c.ip.To4(); ip4 != nil {
+				recs = append(recs, fmt.Sprintf("[fam |-> \"v4\", o |-> <<%d, %d, %d, %d>>]", ip4[0], ip4[1], ip4[2], ip4[3]))
+			} else {
+				g := make([]string, 8)
+				for k := 0; k < 8; k++ {
+					g[k] = strconv.Itoa(int(c.ip[2*k])<<8 | int(c.ip[2*k+1]))
+				}
+				recs = append(recs, "[fam |-> \"v6g\", g |-> <<"+strings.Join(g, ", ")+">>]")
+			}
+		}
+	}
+	txt := "------------------------------ MODULE Observed ------------------------------\n" +
+		"(* generated by `sdpdrv observed`: addresses of the candidates in the answers the real proxy posted in this run *)\n" +
+		"ObservedAddrs == {" + strings.Join(recs, ",\n                  ") + "}\n" +
+		"=============================================================================\n"
+	if err := os.WriteFile(path, []byte(txt), 0o644); err != nil {
+		vh.Fatal("%v", err)
+	}
+}
+
+func modeJudgeLife(rows []json.RawMessage, events []json.RawMessage, w *vh.Writer) {
+	table := loadTable(rows)
+	answers, judged, localVisible, unknown, lives := 0, 0, 0, 0, 0
+	for i, raw := range events {
+		var e lifeEvent
+		if err := json.Unmarshal(raw, &e); err != nil {
+			vh.Fatal("bad event %d: %v", i, err)
+		}
+		if e.Ev == "life" {
+			lives++
+		}
+		if e.Ev != "answer" {
+			continue
+		}
+		answers++
+		cs := map[string]interface{}{"plan": e.Plan, "life": e.Life, "keep": e.Keep, "url": e.URL, "context": e.Context}
+		if e.Undecodable {
+			w.Put(vh.Result{Idx: e.Plan, Sig: "diverge/lifecycle/undecodable-answer", Detail: "the proxy posted an answer the executor could not decode", Case: cs})
+			continue
+		}
+		local := false
+		for _, c := range candidatesOf(e.Sent) {
+			row := table[tableKey(c.typ, c.tr, c.ip, c.text)]
+			if row == nil {
+				unknown++
+				continue
+			}
+			if row.Strip != "strip" {
+				continue
+			}
+			local = true
+			if e.Expect == "stripped" {
+				w.Put(vh.Result{Idx: e.Plan, Sig: "lifecycle/survivor/" + row.sigClass() + "/" + e.Context,
+					Detail: fmt.Sprintf("lifetime %d of the process was started with KeepLocalAddresses=false (%s), yet the answer it posted to the broker contains %q (%s)", e.Life, e.Context, c.line, row.C.class()), Case: cs})
+			}
+		}
+		if e.Expect == "stripped" {
+			judged++
+		} else if local {
+			localVisible++
+		}
+	}
+	w.Put(map[string]interface{}{"summary": map[string]interface{}{"cases": answers, "nontrivial": judged, "lifetimes": lives,
+		"answers_in_keeping_lifetimes_with_local_host_candidate": localVisible, "candidates_not_in_table": unknown}})
+}
+
 func main() {
 	if len(os.Args) < 4 {
 		vh.Fatal("usage: sdpdrv mode ...")
@@ -931,6 +1095,16 @@ func main() {
 		}
 	}
 	switch mode {
+	case "observed":
+		modeObserved(in, arg(3))
+		return
+	case "judgelife":
+		evs, err := vh.ReadCases(arg(3))
+		if err != nil {
+			vh.Fatal("%v", err)
+		}
+		open(4)
+		modeJudgeLife(in, evs, w)
 	case "desc":
 		needTpl()
 		open(3)
